@@ -472,14 +472,23 @@ def bracket_worker(args):
     S = scripth.SENT_BASE + 1
     forms = [('hue %s print hue', 'register'), ('assign v %s print v', 'assign'), ('define f with p print p f %s', 'argument'),
              ('if %s print 1 else print 2', 'if'), ('repeat %s print 7', 'count'), ('repeat with i from %s to 3 print i', 'from'),
-             ('print %s', 'print'), ('set "Z" zone %s', 'zone'), ('define m 4 hue m print %s', 'macro-neighbour')]
+             ('print %s', 'print'), ('set "Z" zone %s', 'zone'), ('define m 4 hue m print %s', 'macro-neighbour'),
+             # the second value of every range, matrix addressing inline and staged, the other loop clauses, return and printf values
+             ('set "Z" zone 1 %s', 'zone-end'), ('set "M" row %s', 'row'), ('set "M" row 0 %s', 'row-end'), ('set "M" column %s', 'column'),
+             ('set "M" column 0 %s', 'column-end'), ('set "M" row 0 1 column %s', 'column-after-row'), ('set "M" row 1 column 0 %s', 'column-end-after-row'),
+             ('set "M" begin stage row 0 %s end', 'stage-row-end'), ('set "M" begin stage column %s stage row 1 column 0 %s end', 'stage-column'),
+             ('repeat with i from 0 to %s print i', 'to'), ('repeat 2 with h cycle %s print h', 'cycle-start'), ('repeat %s with w from 0 to 4 print w', 'count-with'),
+             ('repeat all as l with b from %s to 9 print b', 'light-from'), ('define f begin return %s end print [f]', 'return'), ('printf "{} {}" 1 %s', 'printf-value'),
+             ('time %s on all', 'time'), ('duration %s set all', 'duration')]
+    int_positions = ('count', 'from', 'zone', 'zone-end', 'row', 'row-end', 'column', 'column-end', 'column-after-row', 'column-end-after-row', 'stage-row-end',
+                     'stage-column', 'to', 'count-with')
     for fmt, pos in forms:
         progs = []
         for val in (str(S), '{%d}' % S, '{ %d }' % S):
             world.configure()
             p = Parser()
-            if not p.parse(fmt % val):
-                res.violation('braces|rejected|%s' % pos, 'braces round a single value rejected in %r: %s' % (fmt % val, p.get_errors()), inputs={'text': fmt % val}, replayed=True)
+            if not p.parse(fmt.replace('%s', val)):
+                res.violation('braces|rejected|%s' % pos, 'braces round a single value rejected in %r: %s' % (fmt.replace('%s', val), p.get_errors()), inputs={'text': fmt.replace('%s', val)}, replayed=True)
                 progs = None
                 break
             progs.append(p.get_program())
@@ -487,7 +496,7 @@ def bracket_worker(args):
             continue
 
         def harness(ctx):
-            v = ctx.int('v', 0, 4) if pos in ('count', 'from', 'zone') else ctx.real('v', -100, 100)
+            v = ctx.int('v', 0, 4) if pos in int_positions else ctx.real('v', 0 if pos in ('time', 'duration') else -100, 100)
             traces = []
             for prog in progs:
                 slots = [i for i in prog if isinstance(i.param0, int) and not isinstance(i.param0, bool) and i.param0 == S]
